@@ -400,9 +400,28 @@ def textbook(spec, cond_val=None, Y=None):
     # (1e3*eps*sill per right-hand-side entry: near the support edge of compact models a covariance of 1e-11 still
     # carries an absolute error of order eps*var) propagated through |K^-1|
     ainv = np.abs(np.linalg.inv(K))
-    dk = 1e3 * EPS * sill_
-    out["tf"] = tol_field(cond, d, lam, raw) + dk * float((np.abs(d) @ ainv).sum())
-    out["tv"] = tol_err(cond, k, lam, sill_) + 2 * dk * np.abs(lam).sum(axis=0)
+    # ... plus the modulus of continuity of the covariance at the rounding error of a lag: the isometrized coordinates
+    # (rotation / anisotropy product, or sphere embedding) carry errors of a few eps*|coordinate|, so a lag -- in particular the
+    # lag 0 between a target and the identical conditioning point -- is only known up to delta = 16*dim*eps*max|coordinate|
+    # (/ smallest anisotropy ratio).  A covariance that is concave at the origin changes by at most var - cov(delta); for
+    # Lipschitz models that is ~1e-15*var, for the truncated-power-law models (1 - cor ~ r^(2H), H = 0.25: 1.4e-8 at r = 1e-16)
+    # it is the dominant evaluation noise.
+    if model.latlon:
+        cmax = float(model.geo_scale) + (float(np.abs(np.concatenate([X[2], Y[2]])).max()) if model.temporal else 0.0)
+        amin = min(1.0, float(np.min(model.anis))) if model.temporal else 1.0
+        dim_ = 4 if model.temporal else 3
+    else:
+        cmax = float(max(np.abs(X).max(), np.abs(Y).max()))
+        amin = min(1.0, float(np.min(model.anis))) if model.dim > 1 else 1.0
+        dim_ = int(model.dim)
+    delta = 16 * dim_ * EPS * cmax / amin
+    omega = abs(float(model.var - np.ravel(model.covariance(np.array([delta])))[0]))
+    dk = 1e3 * EPS * sill_ + omega
+    lsum = 1.0 + float(np.abs(lam[:n]).sum(axis=0).max())
+    out["noise_f"] = dk * float((np.abs(d) @ ainv).sum()) * lsum
+    out["noise_v"] = 2 * dk * float(np.abs(lam).sum(axis=0).max()) * lsum
+    out["tf"] = tol_field(cond, d, lam, raw) + out["noise_f"]
+    out["tv"] = tol_err(cond, k, lam, sill_) + out["noise_v"]
     return out
 
 
@@ -1183,9 +1202,10 @@ def probe_exact_at_data(ctx, spec, stats, kr=None, label="exact_at_data", extra=
     d = np.abs(tb["d"]).max() + 1e-300
     t0 = np.full(n, 1e3 * tb["cond"] * EPS * d * tb["N"] + 1e-12)
     mean_c = fval(tb["mean"], tb["X"], n)
+    t0 = t0 + tb["noise_f"]          # covariance evaluation noise incl. the modulus of continuity at a rounding-level lag
     tp = post_tol(tb["nz"], tb["d"][:n] + mean_c, t0) + 1e-9 * np.abs(val)
     sill = tb["sill"]
-    tv = 1e3 * tb["cond"] * EPS * np.abs(tb["K"]).max() * tb["N"] + 1e-12 * sill
+    tv = 1e3 * tb["cond"] * EPS * np.abs(tb["K"]).max() * tb["N"] + 1e-12 * sill + tb["noise_v"]
     dev = np.abs(f - val)
     if not np.all(dev <= tp):
         _viol(ctx, label, "kriged field at the conditioning points differs from the conditioning values "
